@@ -811,8 +811,13 @@ def enc_instance(fe, p):
         th = ins.theta_value
         rows.append("%d~%s~%s~%d~%d" % (th, ins.id, kind, bounds.lower_bound_theta_value(th), bounds.upper_bound_theta_value(th)))
     terms = ";".join("%s=%s" % (k, _ser(v, env)) for k, v in fe._stack_var_to_term.items())
+    th = {ins.id: ins.theta_value for ins in fe._instructions}
     inst = [str(fe.bs), str(fe.b0), str(constants.int_limit), {"uninterpreted_uf": "uf", "uninterpreted_int": "ui", "stack_vars": "sv", "int": "int"}.get(p.encode_terms, "int"), "1" if fe._terminal else "0",
-            ";".join(rows), ",".join(_sv(x) for x in fe.initial_stack), ",".join(_sv(x) for x in fe.final_stack), terms]
+            ";".join(rows), ",".join(_sv(x) for x in fe.initial_stack), ",".join(_sv(x) for x in fe.final_stack), terms,
+            p.memory_encoding,
+            ";".join("%d,%d,%d,%d" % (th[a], th[b], 1 if "STORE" in a else 0, 1 if "STORE" in b else 0) for a, b in fe.mem_order if a in th and b in th),
+            ",".join(str(ins.theta_value) for ins in fe._instructions if ins.unique_ui),
+            ";".join("%d,%d" % (th[pred], th[succ]) for succ, preds in fe._dependency_graph.items() for pred in preds if pred in th and succ in th)]
     meta = {"first": bounds.first_position_sequence, "last": bounds.last_position_sequence, "empty": bool(p.empty)}
     return inst, meta
 
@@ -839,7 +844,9 @@ def t_enc(t):
         e = {"name": name, "b0": spec["init_progr_len"], "bs": spec["max_sk_sz"]}
         try:
             fe = FullEncoding(copy.deepcopy(spec), p)
-            hard = [_ser(c.formula, env) for c in fe.generate_hard_constraints()]
+            gen_hard = fe.generate_hard_constraints()
+            fe.functions_declared()      # as in BlockOptimizer: declared before the lazy generators are consumed
+            hard = [_ser(c.formula, env) for c in gen_hard]
             inst, meta = enc_instance(fe, p)
             e["hard"] = hard
             e["inst"] = inst
